@@ -75,7 +75,9 @@ Inductive tree :=
 | Leaf (attr cmp val : bytes)
 | TNot (t : tree)
 | TAnd (l r : tree)
-| TOr (l r : tree).
+| TOr (l r : tree)
+| TPar (t : tree).               (* a parenthesised group: only in the concrete syntax tree of the model;
+                                    the Go AST drops it (see strip) *)
 
 Inductive pres (A : Type) :=
 | POk (a : A) (pos : nat)        (* success, new position *)
@@ -177,7 +179,7 @@ Definition p_prim (ts : list bytes) (inner : option (nat -> pres tree)) (pos : n
       match disj (S pos) with
       | POk t p1 =>
         match accept ts p1 (B ")") with                     (* expect(")") *)
-        | Ok true => POk t (S p1)
+        | Ok true => POk (TPar t) (S p1)
         | Ok false => PErr p1
         | _ => PPanic
         end
@@ -209,8 +211,36 @@ Inductive outcome :=
 | Crashed                  (* a Go panic *)
 | OutOfFuel.
 
-(* parseConditional + rendering of the error as Args.Prepare does (Tokens[:Pos] slices) *)
-Definition parse (ts : list bytes) : outcome :=
+(* the AST as Go builds it: parentheses leave no node *)
+Fixpoint strip (t : tree) : tree :=
+  match t with
+  | Leaf a c v => Leaf a c v
+  | TNot x => TNot (strip x)
+  | TAnd l r => TAnd (strip l) (strip r)
+  | TOr l r => TOr (strip l) (strip r)
+  | TPar x => strip x
+  end.
+
+(* maximal nesting of parentheses, and the token list a concrete syntax tree stands for *)
+Fixpoint par_depth (t : tree) : nat :=
+  match t with
+  | Leaf _ _ _ => 0
+  | TNot x => par_depth x
+  | TAnd l r | TOr l r => Nat.max (par_depth l) (par_depth r)
+  | TPar x => S (par_depth x)
+  end.
+Fixpoint unparse (t : tree) : list bytes :=
+  match t with
+  | Leaf a c v => [a; c; v]
+  | TNot x => B "!" :: unparse x
+  | TAnd l r => unparse l ++ B "&" :: unparse r
+  | TOr l r => unparse l ++ B "|" :: unparse r
+  | TPar x => B "(" :: unparse x ++ [B ")"]
+  end.
+
+(* parseConditional + rendering of the error as Args.Prepare does (Tokens[:Pos] slices);
+   parse_cst keeps the parentheses, parse is what Go returns *)
+Definition parse_cst (ts : list bytes) : outcome :=
   match ts with
   | [] => Empty
   | _ =>
@@ -222,6 +252,9 @@ Definition parse (ts : list bytes) : outcome :=
     | PFuel => OutOfFuel
     end
   end.
+
+Definition parse (ts : list bytes) : outcome :=
+  match parse_cst ts with Accepted t => Accepted (strip t) | o => o end.
 
 (* ------------------------------------------------------------------ sanitizer (tokenize.go) *)
 Definition lower_char (c : ascii) : ascii :=
